@@ -31,7 +31,7 @@ impl ProcResult {
 pub fn zydeco_bin() -> std::path::PathBuf {
     std::env::var_os("ZV_ZYDECO_BIN")
         .map(Into::into)
-        .unwrap_or_else(|| "/verif/target/repo/debug/zydeco".into())
+        .unwrap_or_else(|| crate::core::verif_root().join("target/repo/debug/zydeco"))
 }
 
 pub fn run(
